@@ -312,6 +312,15 @@ func (c *Ctx) execCall(fr *Frame, st *State, call *ssa.CallCommon, site ssa.Valu
 			res = sem
 			break
 		}
+		// methods of bytes.Buffer / strings.Builder only change their receiver (the
+		// buffer owns its backing array)
+		if isBufferMethod(callee) && len(args) > 0 && args[0].P != nil {
+			hv := c.havocVal(args[0].P.ET, "buf")
+			c.store(st, args[0].P, hv.S)
+			c.trusted["bytes.Buffer / strings.Builder methods: only the receiver changes, no panic (sizes are not modelled)"] = true
+			res = c.havocVal(rt, "ext")
+			break
+		}
 		c.externals[key] = true
 		c.havocAll(st, true)
 		res = c.havocVal(rt, "ext")
@@ -1176,4 +1185,27 @@ func sortedGhosts(st *State) []string {
 	}
 	sort.Strings(ks)
 	return ks
+}
+
+func isBufferMethod(fn *ssa.Function) bool {
+	recv := fn.Signature.Recv()
+	if recv == nil {
+		return false
+	}
+	pt, ok := recv.Type().(*types.Pointer)
+	if !ok {
+		return false
+	}
+	n, ok := pt.Elem().(*types.Named)
+	if !ok || n.Obj().Pkg() == nil {
+		return false
+	}
+	switch n.Obj().Pkg().Path() + "." + n.Obj().Name() {
+	case "bytes.Buffer", "strings.Builder":
+		switch fn.Name() {
+		case "Write", "WriteByte", "WriteString", "WriteRune", "Len", "String", "Bytes", "Reset", "Cap":
+			return true
+		}
+	}
+	return false
 }
